@@ -1,3 +1,64 @@
-From Coq Require Import List String.
-Example C02_placeholder : True. Proof. exact I. Qed.
-Print Assumptions C02_placeholder.
+(** C02 — string, fields, query and uri forms of a typed Sid all denote the same Sid.  Property theorems only.
+    [naturally_typed Ld x]: x is what natural (first-match) typing of its own string gives.
+    Guards: "no newline in the string" for the rebuild from fields (python's "$" tolerates one trailing newline in
+    resolva's reverse check, which has no canonical check; DESIGN.md 6/C02), [query_safe] for the query round trip
+    (the property's own restriction). *)
+From Coq Require Import List String Ascii Bool Arith Permutation.
+From Spil Require Import Base.Str Base.Dict Base.Outcome Regex.Re Regex.MatchProofs Resolva.Template Resolva.Resolver
+  Conf.Conf Conf.WF Sid.Query Sid.Sid Sid.TypingSpec Sid.TypingProofs Sid.SidProofs Sid.QueryStringProofs Sid.QueryProofs.
+From SpilGen Require Hamlet.
+Import ListNotations.
+Local Open Scope string_scope.
+
+(* the string of a typed Sid is the canonical rendering of its fields through its type's template *)
+Theorem C02_canonical : forall c Ld, load c = Some Ld -> wf_loadedb Ld = true ->
+  forall s t d, natural Ld s = Some (t, d) ->
+  exists tp, find_tpl (l_sid Ld) t = Some tp /\ map fst d = item_names (tp_items tp) /\ s = join "/" (map snd d).
+Proof. exact natural_canonical. Qed.
+Print Assumptions C02_canonical.
+
+Theorem C02_uri_copy : forall c Ld, load c = Some Ld -> wf_loadedb Ld = true ->
+  forall x, naturally_typed Ld x -> mem_c "?" (s_string x) = false ->
+  Sid Ld (uri x) = Ok x /\ sid_copy Ld x = Ok x.
+Proof. exact roundtrip_uri. Qed.
+Print Assumptions C02_uri_copy.
+
+(* rebuilt from the field dictionary in ANY key order *)
+Theorem C02_fields_partial : forall c Ld, load c = Some Ld -> wf_loadedb Ld = true ->
+  forall x d', naturally_typed Ld x -> mem_c "010" (s_string x) = false ->
+  Permutation (s_fields x) d' -> sid_factory Ld (FromFields d') = Ok x.
+Proof. exact roundtrip_fields. Qed.
+Print Assumptions C02_fields_partial.
+
+(* two typed Sids are equal exactly when type and fields are equal *)
+Theorem C02_eq_iff : forall Ld, wf_loadedb Ld = true ->
+  forall x y, naturally_typed Ld x -> naturally_typed Ld y ->
+  (sid_eqb x y = true <-> s_type x = s_type y /\ s_fields x = s_fields y).
+Proof. exact eq_iff. Qed.
+Print Assumptions C02_eq_iff.
+
+(* the urllib fragment: as_query then to_dict is the identity on url-safe fields *)
+Theorem C02_query_string : forall d, query_safe d -> NoDup (map fst d) -> to_dict (to_string d) = Ok d.
+Proof. exact to_dict_to_string. Qed.
+Print Assumptions C02_query_string.
+
+(* query round trip; guard: the Sid is a search, or no other template with the same key set accepts its string *)
+Theorem C02_query : forall c Ld, load c = Some Ld -> wf_loadedb Ld = true ->
+  forall x, naturally_typed Ld x -> query_safe (s_fields x) ->
+  (is_search_str Ld ("?" ++ as_query x) = true \/
+   (forall t', In t' (r_tpls (l_sid Ld)) -> tp_name t' <> s_type x ->
+      keys_eq (dkeys (s_fields x)) (item_names (tp_items t')) = true -> accepts t' (s_string x) = None)) ->
+  to_dict (to_string (s_fields x)) = Ok (s_fields x) /\ sid_factory Ld (FromQuery (as_query x)) = Ok x.
+Proof. exact roundtrip_query. Qed.
+Print Assumptions C02_query.
+
+(* instance + non-vacuity on today's configuration: a concrete typed Sid, rebuilt from shuffled fields *)
+Example C02_instance :
+  sid_factory Hamlet.the_loaded (FromFields [("assettype", "char"); ("project", "hamlet"); ("type", "a")])
+  = Ok (mkSid "hamlet/a/char" "asset__assettype" [("project", "hamlet"); ("type", "a"); ("assettype", "char")]).
+Proof. vm_compute. reflexivity. Qed.
+Print Assumptions C02_instance.
+Example C02_instance_hyp : naturally_typed Hamlet.the_loaded
+  (mkSid "hamlet/a/char" "asset__assettype" [("project", "hamlet"); ("type", "a"); ("assettype", "char")]).
+Proof. vm_compute. reflexivity. Qed.
+Print Assumptions C02_instance_hyp.
